@@ -13,14 +13,18 @@ def body(run):
     sc.core_check(
         run, "C32", [("ServerCoreGen_ids.cfg", run.pick(12, 150), 7),
                      # every successful create/delete history of 6 requests of one session (id freshness patterns)
-                     ("ServerCoreGen_freshsub.cfg", None, None), ("ServerCoreGen_freshitem.cfg", None, None)],
+                     ("ServerCoreGen_freshsub.cfg", None, None), ("ServerCoreGen_freshitem.cfg", None, None),
+                     # ONE request with 2 / 3 (thorough: 4) distinct ids in every order of own / foreign / never-issued
+                     ("ServerCoreGen_batch2.cfg", None, None), ("ServerCoreGen_batch3.cfg", None, None)]
+        + ([] if run.quick() else [("ServerCoreGen_batch4.cfg", None, None)]),
         mc_cfgs=[("ServerCore_mc.cfg", "contract: session, id and owner invariants on 2 sessions + null caller")],
         dev_cfgs=[("ServerCore_dev_subid-reuse.cfg", "deviation demo: subscription id reused while in use"),
                   ("ServerCore_dev_setmode-foreign-effective.cfg", "deviation demo: foreign SetMonitoringMode takes effect")],
         max_deaths=run.pick(8, 40))
     run.cov["rule"] = ("seeded histories of 6 create/delete/set-mode requests by two activated sessions drawn by TLC's "
                        "simulator from the contract model, plus every successful create/delete history of 6 requests of one session "
-                       "(subscriptions; items); class = the request sequence (service, caller, target index)")
+                       "(subscriptions; items), plus batch requests (DeleteSubscriptions / DeleteMonitoredItems / SetMonitoringMode "
+                       "with 2-4 distinct ids of s1, s2 and nobody in every order); class = the request sequence")
     run.assumptions += [
         "ids 'in use' = ids present in SubscriptionService.Subs / MonitoredItemService.Items (privileged listing after "
         "the tables were quiescent for 40 ms)",
